@@ -54,3 +54,16 @@ func specDefaultScheme(s string) string {
 	}
 	return s
 }
+
+// specReadOnlyOperation: the operations whose covered effect does not change any state (from the operation table of
+// the authorizer interface: list, head, get and get-configuration operations).
+func specReadOnlyOperation(op string) bool {
+	switch op {
+	case "ListBuckets", "HeadBucket", "ListObjects", "ListObjectVersions", "ListMultipartUploads", "ListParts",
+		"HeadObject", "HeadObjectVersion", "GetObject", "GetObjectVersion",
+		"GetBucketCORS", "GetBucketWebsite", "GetBucketVersioning", "GetBucketLifecycle", "GetBucketNotification",
+		"GetObjectTagging", "GetObjectVersionTagging":
+		return true
+	}
+	return false
+}
